@@ -10,6 +10,7 @@ import (
 	"bufio"
 	"io"
 	"io/ioutil"
+	"sync"
 )
 
 // Connection is a connection based on HAP protocol which encrypts and decrypts the data.
@@ -25,6 +26,10 @@ type Connection struct {
 
 	// Used to buffer reads
 	readBuffer io.Reader
+
+	// Serializes encrypted writes: the frame counter is taken and the
+	// frames are written to the socket as one step
+	writeMutex sync.Mutex
 }
 
 // NewConnection returns a hap connection.
@@ -44,20 +49,29 @@ func NewConnection(connection net.Conn, context Context) *Connection {
 // EncryptedWrite encrypts and writes bytes to the connection.
 // The method returns the number of written bytes and an error when writing failed.
 func (con *Connection) EncryptedWrite(b []byte) (int, error) {
+	con.writeMutex.Lock()
+	defer con.writeMutex.Unlock()
+
 	var buffer bytes.Buffer
 	buffer.Write(b)
 	encrypted, err := con.getEncrypter().Encrypt(&buffer)
 
 	if err != nil {
-		log.Info.Panic("Encryption failed:", err)
-		err = con.connection.Close()
+		log.Info.Println("Encryption failed:", err)
+		con.connection.Close()
 		return 0, err
 	}
 
 	encryptedBytes, err := ioutil.ReadAll(encrypted)
-	n, err := con.connection.Write(encryptedBytes)
+	if err != nil {
+		return 0, err
+	}
 
-	return n, err
+	if _, err = con.connection.Write(encryptedBytes); err != nil {
+		return 0, err
+	}
+
+	return len(b), nil
 }
 
 // DecryptedRead reads and decrypts bytes from the connection.
